@@ -9,7 +9,7 @@ from vlib import B6
 WORLDS = ["w1", "w2"]
 INIT_WORLDS = ["w1"]
 FEATS = ["f1", "f2", "f3", "c1"]          # ID order: points before collections; f3 and c1 are not in the base world
-TAGS = ["k", "m", "n"]
+TAGS = ["k", "m", "n", "p"]     # "p" is a plain key (no "#"): not indexed by tag search
 BASE = {"f1": {"p": True, "t": ["m", "n"]}, "f2": {"p": True, "t": ["n"]},
         "f3": {"p": False, "t": []}, "c1": {"p": False, "t": []}}
 FIELDS = ["k", "w", "f", "g", "c", "t", "x"]
